@@ -592,10 +592,7 @@ func c07ParseCase(c *Ctx, src string, l syntax.LangVariant, stop string, sched [
 	if got == base {
 		return true
 	}
-	st := stop
-	if st == "" {
-		st = "-"
-	}
+	st := hx(stop)
 	ew := "0"
 	if eofWith {
 		ew = "1"
@@ -728,10 +725,7 @@ func c07Replay(c *Ctx, line string) {
 	switch {
 	case len(f) == 6 && f[0] == "parse":
 		l := c07LangByName(f[1])
-		stop := f[2]
-		if stop == "-" {
-			stop = ""
-		}
+		stop := unhx(f[2])
 		src := unhx(f[5])
 		base := c07Dump(strings.NewReader(src), l, stop)
 		c07ParseCase(c, src, l, stop, c07ParseSched(f[3]), f[4] == "1", base)
